@@ -143,6 +143,7 @@ def apply_site_rewrites(text, rewrites, log, where):
     return text
 
 
+CUT_MARK = "/*@verif-cut@*/"
 # functions whose optional proof hints ("?anchor") found no anchor during the current generate() call
 DROPPED_HINTS = []
 
@@ -401,14 +402,18 @@ def generate(unit: Unit, root, rules_mod):
         s, b, e = src.find_fn(it.name, it.container)
         orig = src.text[s:e + 1]
         where = f"{it.file}::{(it.container + '::') if it.container else ''}{it.name}"
+        orig_unmarked = orig
         if isinstance(it.cut_from, re.Pattern):
             # a start anchor given as a pattern: it must match exactly once; the matched text is the anchor
-            hits = [mt.group(0) for mt in it.cut_from.finditer(orig)]
+            hits = [mt for mt in it.cut_from.finditer(orig)]
             if len(hits) != 1:
                 raise AnchorLost(f"{where}: cut_from pattern {it.cut_from.pattern!r} matches {len(hits)}x")
             import copy as _copy2
             it = _copy2.copy(it)
-            it.cut_from = hits[0]
+            # the matched TEXT may occur elsewhere too (the pattern can use look-ahead): mark the matched position
+            orig_unmarked = orig
+            orig = orig[:hits[0].start()] + CUT_MARK + orig[hits[0].start():]
+            it.cut_from = CUT_MARK + hits[0].group(0)
         if it.cut_before == "@block-end":
             # middle fragment ending where the block that encloses the start anchor ends (e.g. one match arm `=> { .. }`)
             if not it.cut_from or orig.count(it.cut_from) != 1:
@@ -458,6 +463,7 @@ def generate(unit: Unit, root, rules_mod):
             meta["rewrites"].append({"where": where, "kind": "fragment", "old": f"<signature and {orig_kept[:cut].count(chr(10))} lines before `{it.cut_from}`>",
                                      "new": it.sig, "count": 1})
             orig_kept = it.sig.rstrip() + " {\n" + orig_kept[cut:]
+        orig_kept = orig_kept.replace(CUT_MARK, "")
         if it.pre_rewrites:
             orig_kept = apply_site_rewrites(orig_kept, it.pre_rewrites, meta["rewrites"], where)
         t = rules_mod.apply_rules(orig_kept, rules, ctx, meta["rule_counts"], where)
@@ -497,7 +503,7 @@ def generate(unit: Unit, root, rules_mod):
         else:
             parts.append(hdr + t + "\n")
         meta["linemap"].append({"kind": "fn", "name": it.rename or it.name, "container": wrap, "start": start, "end": cur_line(), "where": where})
-        meta["items"].append({"item": where, "lines": [src.line_of(s), src.line_of(e)], "sha256": sha(orig), "kind": "fn",
+        meta["items"].append({"item": where, "lines": [src.line_of(s), src.line_of(e)], "sha256": sha(orig_unmarked), "kind": "fn",
                               "loops": n_loops, "loops_with_invariant": (n_loops if it.loop_fn is not None else len(it.loops)),
                               "loops_by_header": it.loop_fn is not None,
                               "has_contract": bool(it.contract.strip()), "obligation": it.obligation})
